@@ -138,7 +138,8 @@ class ListenerModel:
             st = State()
             ctx = ("sym", "ctx")
             st.facts[("in", ctx, self.consumed)] = False
-            outs = ev.run_function(ci.methods["enterCommand_invocation"], {"self": SELF, "ctx": ctx}, st)
+            fn0 = ci.methods["enterCommand_invocation"]
+            outs = ev.run_function(fn0, {"self": SELF, func_params(fn0)[1]: ctx}, st)
         elif event == "DOC":
             dctx = ("sym", "dctx")
             fn1 = ci.methods["enterDocumented_command"]
@@ -168,7 +169,7 @@ class ListenerModel:
             outs = ev.run_function(fn2, {"self": SELF, func_params(fn2)[1]: ctx}, st)
         elif event == "MODULE":
             fn2 = ci.methods["enterDocumented_module"]
-            outs = ev.run_function(fn2, {"self": SELF})
+            outs = ev.run_function(fn2, {"self": SELF, func_params(fn2)[1]: ("sym", "ctx")})
         else:
             raise ValueError(event)
         rows = [self.condense(event, k, o) for o in outs]
